@@ -257,7 +257,7 @@ def _run_shard(modname, tier, seed, shard, nshards, n_examples, shrink_seconds):
         collect()
 
         # collect-then-shrink: one pass per distinct failure kind (at most 3)
-        for k in list(first)[:3]:
+        def shrink_kind(k):
             best = {"v": first[k]}
 
             class _Hit(Exception):
@@ -266,22 +266,23 @@ def _run_shard(modname, tier, seed, shard, nshards, n_examples, shrink_seconds):
             @hypothesis.seed(hseed)
             @settings(max_examples=n_examples, phases=[Phase.generate, Phase.shrink], **common)
             @given(strat)
-            def hunt(case, _k=k, _best=best):
+            def hunt(case):
                 kinds, out = ex.execute(case, count=False)
-                if _k in kinds:
-                    _best["v"] = {"case": case, "disc": out.disc, "origin": "shrunk"}
+                if k in kinds:
+                    best["v"] = {"case": case, "disc": out.disc, "origin": "shrunk"}
                     raise _Hit()
 
             try:
                 hunt()
             except _Hit:
                 pass
-            except BaseException as e:  # flaky etc.: keep the unshrunk case
-                if "Flaky" not in type(e).__name__ and not isinstance(e, Exception):
-                    raise
-            first[k] = best["v"]
-        for k in list(first)[3:]:
-            pass
+            except Exception as e:
+                # e.g. Flaky: keep the best case seen so far, but say so
+                best["v"] = dict(best["v"], shrink_note="%s: %s" % (type(e).__name__, str(e)[:200]))
+            return best["v"]
+
+        for k in list(first)[:3]:
+            first[k] = shrink_kind(k)
         for k, v in first.items():
             if k not in st.failures:
                 st.failures[k] = v
